@@ -14,13 +14,34 @@ HOOKS = {
     "guard": "ndarray_interp_verif",
     "enable": "RUSTFLAGS=\"--cfg ndarray_interp_verif\" (set by ./check for every harness build)",
     "baseline_off_cmd": "cd /repo && cargo test --workspace --no-fail-fast --offline",
-    "source_commits": [],
+    "source_commits": ["59531ba", "8bb3fdb"],
     "add_only": True,
 }
 
 K_TRUST = ["Kani 0.68.0 (its model of Rust semantics and of the standard library), CBMC 6.11.0, cadical"]
 
 PROPS = {
+    "C19": {
+        "bin": "c19",
+        "engine": "S+K",
+        "kani": {
+            "quick": [],
+            "thorough": ["c19_fastpath_f64", "c19_fastpath_i32"],
+            "stubbing": True,
+            "timeout_s": {"quick": 60, "thorough": 3600},
+            "functions": ["cast_unchecked", "interp1d::Interp1D::interp_array_into", "interp1d::Interp1D::interp_array_into_1d"],
+            "bounds": {"quick": [], "thorough": ["engine K: fast path (Ix1 query) and general path (IxDyn rank 1) of Interp1D::interp_array_into on the real f64 and i32 code, concrete 2-point data, one symbolic choice between two query vectors: CBMC's memory model checks ptr::read through the transmuted pointer and every access that follows; alloc::fmt::format stubbed"]},
+            "assumptions": ["alloc::fmt::format is stubbed in the engine K harness (error paths build their messages with format!)"],
+        },
+        "explanation": "(a) Exhaustive enumeration (not solving) of the finite instantiation set: every (data dimension type) x (query variant) x (data storage) x (element type incl. Sym) x (Interp1D, Interp2D) is compiled and executed with the hook on: "
+                       "inside cast_unchecked type_name / size_of / align_of of source and destination must be equal and the per-thread cast counter must move exactly for static Ix1 queries. (b) Solver-based, mode O: with symbolic axes, data and "
+                       "queries the fast path, the general path on the same query as IxDyn of rank 1 and as a 1 x k Ix2 query return the same outcome and the same IEEE values through interp_array and interp_array_into. (c) thorough: engine K "
+                       "runs both paths on the real f64 / i32 code under CBMC's memory model.",
+        "trusted_base": O_TRUST + K_TRUST + ["the hook in /repo/src/lib.rs (cfg ndarray_interp_verif)", "harness/src/api.rs forwarding layer"],
+        "technique": "hook-instrumented enumeration of all monomorphisations (type identity) + symbolic two-path equality in mode O (z3 QF_FP/UF, term identity) + Kani/CBMC memory-model run (thorough)",
+        "level_text": "The type-identity half is a finite configuration space enumerated completely (1800 instantiation x query cases); the unobservability half is bounded symbolic model checking over all IEEE values; pointer validity of the cast is model-checked by CBMC on concrete data in the thorough tier.",
+        "level_note": "Trusted: the hook, engine S, Kani/CBMC. type_name omits lifetimes (identity up to lifetimes). CubicSpline strategies are not part of the instantiation matrix (the cast types do not mention the strategy).",
+    },
     "C11": {
         "bin": "c11",
         "engine": "K+S",
